@@ -11,6 +11,7 @@ import Poulpy.Lemmas.CkksDot
 import Poulpy.Lemmas.CkksXProg
 import Poulpy.Lemmas.CkksRelin
 import Poulpy.Lemmas.CkksAutNumeric
+import Poulpy.Lemmas.CkksConvSem
 /-!
 # C16 — the CKKS evaluator tracks precision metadata through any straight-line program
 
@@ -1748,5 +1749,112 @@ example (big : Bool) (s : List Poly) : ∃ pool', xrun env4 2 ⟨big, zk4⟩ ⟨
   ⟨pool', h, hok, ht⟩
 
 end Discharged
+
+/-! ## 11. the float → integer conversion of `to_znx` / `to_znx_at_k` (`Model/CkksConv.lean`)
+
+`pdriver ckks toznx` executes `toZnxVec` / `toZnxCst`; `./check C16` compares them with
+`CKKSPlaintextVecRnx::<F>::to_znx` and `CKKSPlaintextCstRnx::<F>::to_znx_at_k` for `F = f64, f128` on
+exactly given inputs (finite values around every boundary, NaN, infinities). -/
+
+section Conversion
+
+/-- **"never panics" of the conversion, with its exact precondition**: one coefficient panics iff the
+element type is `f64` and the value is not finite or its rounded scaled value is outside `[-2^W, 2^W)`
+(`W = 63` when `log_delta + log_budget ≤ 63`, else `127`).  It never returns an error value. -/
+theorem to_int_panic_iff (ty : FloatTy) (W ld : Nat) (x : FVal) :
+    ((∃ p, toIntW ty W ld x = .panic p) ↔ ty = .f64 ∧ ¬ x.convertible W ld) ∧ ∀ e, toIntW ty W ld x ≠ .err e :=
+  ⟨toIntW_panic_iff ty W ld x, toIntW_not_err ty W ld x⟩
+
+example : (∃ p, toIntW .f64 63 20 (.fin 1 43) = .panic p) ∧ toIntW .f64 63 20 (.fin (-1) 43) = .ok (-(2 ^ 63)) ∧
+    toIntW .f64 63 20 (.fin 3 (-21)) = .ok 2 ∧ toIntW .f64 63 20 (.fin (-3) (-21)) = .ok (-2) :=
+  ⟨(to_int_panic_iff .f64 63 20 (.fin 1 43)).1.mpr ⟨rfl, by decide⟩, by decide, by decide, by decide⟩
+
+/-- `f128` (C cast through libgcc): always a value — saturated outside the range, `0` for NaN — so the
+call succeeds with digits of a different number -/
+theorem to_int_f128_total (W ld : Nat) (x : FVal) : ∃ v, toIntW .f128 W ld x = .ok v ∧ -(2 : Int) ^ W ≤ v ∧ v < 2 ^ W :=
+  toIntW_f128_total W ld x
+
+example : toIntW .f128 63 20 (.fin 1 44) = .ok (2 ^ 63 - 1) ∧ toIntW .f128 63 20 .nan = .ok 0 ∧
+    toIntW .f128 127 40 (.inf true) = .ok (-(2 ^ 127)) := ⟨by decide, by decide, by decide⟩
+
+/-- **`to_znx` outcome, refused destination**: the three `ensure!`s come before any conversion, so an
+unsupported `log_delta`, a length mismatch or a plaintext without limbs is an error value whatever
+the coefficients are -/
+theorem to_znx_refused (ty : FloatTy) (b : Nat) (md : Meta) (n : Nat) (vals : List FVal)
+    (h : ¬ VecHeads ty b md n vals) : toZnxVec ty b md n vals = .err "other" :=
+  toZnxVec_err ty b md n vals h
+
+example : toZnxVec .f64 17 ⟨54, 10⟩ 2 [.nan, .inf false] = .err "other" :=
+  to_znx_refused .f64 17 ⟨54, 10⟩ 2 _ (by decide)
+
+/-- **`to_znx` outcome, accepted destination, convertible coefficients**: `Ok`, each coefficient holds
+the `encode_vec_i64` / `encode_vec_i128` digits of `round(x·2^log_delta)` -/
+theorem to_znx_ok (ty : FloatTy) (b : Nat) (md : Meta) (n : Nat) (vals : List FVal)
+    (hh : VecHeads ty b md n vals) (ms : List (Int × Int)) (hv : vals = ms.map (fun p => .fin p.1 p.2))
+    (hc : ∀ x ∈ vals, x.convertible (intPathW md.logDelta md.logBudget) md.logDelta) :
+    toZnxVec ty b md n vals = .ok (ms.map (fun p =>
+      encodeW (intPathW md.logDelta md.logBudget) b (divCeil md.effK b * b) (divCeil md.effK b)
+        (roundHalfAway p.1 (p.2 + md.logDelta)))) :=
+  toZnxVec_ok ty b md n vals hh ms hv hc
+
+example : toZnxVec .f64 17 ⟨20, 10⟩ 2 [.fin 1 0, .fin (-3) (-1)] = .ok [[8, 0], [-12, 0]] := by
+  exact (to_znx_ok .f64 17 ⟨20, 10⟩ 2 [.fin 1 0, .fin (-3) (-1)] (by decide) [(1, 0), (-3, -1)] rfl (by decide)).trans (by decide)
+
+/-- **`f64`: the panic** — exactly when one coefficient is not convertible (after the `ensure!`s) -/
+theorem to_znx_f64_panic (b : Nat) (md : Meta) (n : Nat) (vals : List FVal) (hh : VecHeads .f64 b md n vals)
+    (hc : ∃ x ∈ vals, ¬ x.convertible (intPathW md.logDelta md.logBudget) md.logDelta) :
+    ∃ p, toZnxVec .f64 b md n vals = .panic p :=
+  toZnxVec_f64_panic b md n vals hh hc
+
+example : ∃ p, toZnxVec .f64 52 ⟨40, 89⟩ 2 [.fin 1 87, .fin 1 0] = .panic p :=
+  to_znx_f64_panic 52 ⟨40, 89⟩ 2 _ (by decide) ⟨.fin 1 87, by simp, by decide⟩
+
+/-- **`f128`: no panic for any input** -/
+theorem to_znx_f128_no_panic (b : Nat) (md : Meta) (n : Nat) (vals : List FVal) (p : String) :
+    toZnxVec .f128 b md n vals ≠ .panic p :=
+  toZnxVec_f128_no_panic b md n vals p
+
+example : ∀ p, toZnxVec .f128 52 ⟨40, 89⟩ 2 [.fin 1 87, .nan] ≠ .panic p :=
+  to_znx_f128_no_panic 52 ⟨40, 89⟩ 2 _
+
+/-- **the magnitude limit implies the precondition up to 128 declared bits**: a value with
+`|round(x·2^log_delta)| < 2^(log_delta+log_budget-1)` is convertible when `log_delta + log_budget ≤ 128` … -/
+theorem in_range_convertible (md : Meta) (h : md.effK ≤ 128) (x : FVal) (hx : x.inRange md) :
+    x.convertible (intPathW md.logDelta md.logBudget) md.logDelta :=
+  inRange_convertible md h x hx
+
+example : (FVal.fin 1 86).convertible (intPathW 40 88) 40 := in_range_convertible ⟨40, 88⟩ (by decide) _ (by decide)
+
+/-- … **and not beyond**: with 129 declared bits `x = 2^87`, `log_delta = 40` is inside the magnitude limit
+(`2^88`) and not convertible — `to_znx` has no `log_delta + log_budget ≤ 127` guard
+(`decode_from_znx` has it) -/
+theorem in_range_not_convertible_129 : ∃ (md : Meta) (x : FVal), md.effK = 129 ∧ x.inRange md ∧
+    ¬ x.convertible (intPathW md.logDelta md.logBudget) md.logDelta :=
+  inRange_not_convertible_129
+
+example : ∃ (md : Meta) (x : FVal), md.effK = 129 ∧ x.inRange md ∧ (∃ p, toZnxVec .f64 52 md 1 [x] = .panic p) :=
+  ⟨⟨40, 89⟩, .fin 1 87, rfl, by decide, to_znx_f64_panic 52 ⟨40, 89⟩ 1 _ (by decide) ⟨.fin 1 87, by simp, by decide⟩⟩
+
+/-- **value of the digits** (C08 round trip): for `log_delta + log_budget ≤ 127` and a value inside the
+magnitude limit, decoding the written digits at the same `k` returns the value modulo `2^k`,
+the value itself when `4|v| < 2^k` -/
+theorem to_znx_digits_value (b : Nat) (md : Meta) (hb2 : 2 ≤ b) (hb : b ≤ 61) (hk1 : 1 ≤ md.effK) (hk : md.effK ≤ 127)
+    (v : Int) (hv : v.natAbs < 2 ^ (md.effK - 1)) :
+    ∃ q : Int, decodeCoefVec 128 b (divCeil md.effK b * b)
+        (encodeW (intPathW md.logDelta md.logBudget) b (divCeil md.effK b * b) (divCeil md.effK b) v)
+        = .ok (wrapN 128 (v - q * 2 ^ (divCeil md.effK b * b))) ∧ (4 * |v| < 2 ^ (divCeil md.effK b * b) → q = 0) :=
+  encodeW_decode b md hb2 hb hk1 hk v hv
+
+example : decodeCoefVec 128 17 34 (encodeW (intPathW 20 10) 17 34 2 (-(3 * 2 ^ 19))) = .ok (-(3 * 2 ^ 19)) := by
+  obtain ⟨q, h, hq⟩ := to_znx_digits_value 17 ⟨20, 10⟩ (by norm_num) (by norm_num) (by decide) (by decide) (-(3 * 2 ^ 19)) (by decide)
+  have h0 : q = 0 := hq (by norm_num [divCeil, Meta.effK])
+  subst h0
+  simpa [divCeil, Meta.effK, wrapN] using h
+
+/-- the saturated value is not the value: digits written by the `f128` path for an input inside the
+magnitude limit of 129 declared bits -/
+example : toZnxVec .f128 52 ⟨40, 89⟩ 1 [.fin 1 87] = .ok [[-8388608, 0, -1]] := by decide
+
+end Conversion
 
 end C16
